@@ -736,15 +736,15 @@ theorem canonicalize_T (hP0 : ∀ st, P st → P0 st) (hand : AndOK P0 vt andF) 
 
 /-- postcondition of the loops: the elements keep their sides; with `nf` no prime is the `⊥`
 pointer -/
-def LoopT (vt : VTree) (a i b : Nat) (nf : Bool) : LoopRes → Prop
+def LoopTot (vt : VTree) (a i b : Nat) (nf : Bool) : LoopRes → Prop
   | .elems l => ElemsT vt a i b l ∧ (nf = true → ∀ e ∈ l, e.1 ≠ .fls)
   | .early r => r = .tru
 
-theorem LoopT_nil (vt : VTree) (a i b : Nat) (nf : Bool) : LoopT vt a i b nf (.elems []) :=
+theorem LoopT_nil (vt : VTree) (a i b : Nat) (nf : Bool) : LoopTot vt a i b nf (.elems []) :=
   ⟨fun e he => (by cases he), fun _ e he => (by cases he)⟩
 
 theorem LoopT_elems {vt : VTree} {a i b : Nat} {nf : Bool} {l : List Elem} :
-    LoopT vt a i b nf (.elems l) ↔ ElemsT vt a i b l ∧ (nf = true → ∀ e ∈ l, e.1 ≠ .fls) := Iff.rfl
+    LoopTot vt a i b nf (.elems l) ↔ ElemsT vt a i b l ∧ (nf = true → ∀ e ∈ l, e.1 ≠ .fls) := Iff.rfl
 
 theorem ne_fls_of_not_isFalse {p : Ptr} (h : ¬ p.isFalse = true) : p ≠ .fls := by
   rintro rfl; exact h rfl
@@ -753,7 +753,7 @@ theorem innerLoop_T {a i b : Nat} (hL : AndR P vt andF a i) (hR : AndR P vt andF
     (brk : Bool) {p1 s1 : Ptr} (tp1 : TP vt p1) (ts1 : TP vt s1) (rp1 : InR vt a i p1)
     (rs1 : InR vt (i + 1) b s1) :
     ∀ (eb : List Elem) (st : σ), P st → ElemsT vt a i b eb →
-    ∃ st' res, innerLoop andF brk p1 s1 st eb = some (st', res) ∧ P st' ∧ LoopT vt a i b true res := by
+    ∃ st' res, innerLoop andF brk p1 s1 st eb = some (st', res) ∧ P st' ∧ LoopTot vt a i b true res := by
   intro eb
   induction eb with
   | nil =>
@@ -799,7 +799,7 @@ theorem prodLoop_T {a i b : Nat} (hL : AndR P vt andF a i) (hR : AndR P vt andF 
     (cart : Bool) {eb : List Elem} (heb : ElemsT vt a i b eb) :
     ∀ (ea : List Elem) (st : σ), P st → ElemsT vt a i b ea →
     ∃ st' res, prodLoop andF cart eb st ea = some (st', res) ∧ P st' ∧
-      LoopT vt a i b (!cart) res := by
+      LoopTot vt a i b (!cart) res := by
   intro ea
   induction ea with
   | nil =>
